@@ -30,6 +30,8 @@ type Prog struct {
 	globalIDs map[*ssa.Global]int
 	fnIDs     map[*ssa.Function]int
 	modsets   map[*ssa.Function]*ModSet
+	implCache map[string][]*ssa.Function
+	assumed   map[string]bool // global modelling assumptions used by mod-set computation
 	escaped   map[string]bool // struct field keys whose address escapes (computed once)
 }
 
@@ -138,7 +140,7 @@ func LoadProg(pkgPaths []string) (*Prog, error) {
 	prog, ssapkgs := ssautil.AllPackages(pkgs, ssa.GlobalDebug|ssa.BareInits)
 	prog.Build()
 	P := &Prog{Fset: prog.Fset, Pkgs: pkgs, SSA: prog, SSAPkgs: map[string]*ssa.Package{}, Contracts: map[string]*ContractFile{},
-		byName: map[string]*packages.Package{}, globalIDs: map[*ssa.Global]int{}, fnIDs: map[*ssa.Function]int{}, modsets: map[*ssa.Function]*ModSet{}}
+		byName: map[string]*packages.Package{}, globalIDs: map[*ssa.Global]int{}, fnIDs: map[*ssa.Function]int{}, modsets: map[*ssa.Function]*ModSet{}, implCache: map[string][]*ssa.Function{}, assumed: map[string]bool{}}
 	curProg = P
 	for i, p := range pkgs {
 		P.SSAPkgs[p.PkgPath] = ssapkgs[i]
